@@ -137,7 +137,7 @@ def main(tier):
         # three accesses: the reference itself is model checked exhaustively (14.6M states); replayed into the code is a seeded random
         # sample of those histories (all of them would be 14M program runs)
         gen_histories(run, 3, emit=False)
-        h3 = gen_histories(run, 3, sample=(1500, common.seed()))
+        h3 = gen_histories(run, 3, sample=(900, common.seed()))
         run.notes.append("%d random histories of 3 accesses replayed" % len(h3))
         hists += h3
     if tier == "quick":
